@@ -108,7 +108,7 @@ def job_batch(prop, seed, cls, cfg, run_indices, timeout_s):
         scen = Choices(seed=derive_seed(seed, prop, "scen", i))
         sched = Choices(seed=derive_seed(seed, prop, "sched", i))
         c = dict(cfg)
-        c["fault_mode"] = bool(cfg.get("fault_every")) and (i // cfg["n_classes"]) % cfg["fault_every"] == cfg["fault_every"] - 1
+        c["fault_mode"] = bool(cfg.get("fault_every")) and (i - cfg.get("class_offset", 0)) % cfg["fault_every"] == cfg["fault_every"] - 1
         c["want_sample"] = len(agg["samples"]) < cfg.get("samples_per_job", 0)
         c["run_index"] = i
         try:
@@ -233,6 +233,35 @@ class HarnessError(Exception):
     pass
 
 
+def plan_runs(mod, tier, n_runs):
+    """classes, and for each class the list of global run indices it executes.
+    Equal shares unless the module defines class_weights(tier)."""
+    classes = mod.classes(tier)
+    ncls = len(classes)
+    w = mod.class_weights(tier) if hasattr(mod, "class_weights") else [1.0] * ncls
+    only = os.environ.get("GBSIM_ONLY")  # development aid: restrict to classes whose repr contains this
+    if only:
+        w = [x if only in repr(classes[c]) else 0.0 for c, x in enumerate(w)]
+    tot = float(sum(w))
+    counts = [int(n_runs * x / tot) for x in w]
+    # hand the remainder to the heaviest classes, at least one run per class with weight > 0
+    rest = n_runs - sum(counts)
+    order = sorted(range(ncls), key=lambda c: -w[c])
+    k = 0
+    while rest > 0 and ncls:
+        if w[order[k % ncls]] <= 0:
+            k += 1
+            continue
+        counts[order[k % ncls]] += 1
+        rest -= 1
+        k += 1
+    offs = [0]
+    for c in counts:
+        offs.append(offs[-1] + c)
+    per_class = [list(range(offs[c], offs[c + 1])) for c in range(ncls)]
+    return classes, per_class, offs
+
+
 class Pools:
     """N single-process pools; class c is pinned to pool c % N (JIT sharding)."""
 
@@ -343,8 +372,8 @@ def run_check(prop: str, tier: str, seed: int, runs: int | None = None, workers:
     t0 = time.time()
     print(f"VERIF_SEED={seed} property={prop} tier={tier}", flush=True)
     mod = prop_module(prop)
-    classes = mod.classes(tier)
     n_runs = runs if runs is not None else mod.n_runs(tier)
+    classes, per_class, offs = plan_runs(mod, tier, n_runs)
     ncls = len(classes)
     batch = getattr(mod, "BATCH", 400)
     job_timeout = getattr(mod, "JOB_TIMEOUT_S", 900)
@@ -389,14 +418,13 @@ def run_check(prop: str, tier: str, seed: int, runs: int | None = None, workers:
                     violations_new.append((out["violations"][0]["site"], path, f"fixed finding {e['id']} has returned"))
         # ---- 2. exploration ----
         futs = []
-        per_class = [[i for i in range(c, n_runs, ncls)] for c in range(ncls)]
         # interleave classes so that all pools are busy from the start
         max_len = max((len(x) for x in per_class), default=0)
         for start in range(0, max_len, batch):
             for c in range(ncls):
                 idx = per_class[c][start : start + batch]
                 if idx:
-                    futs.append((c, pools.submit(c, job_batch, prop, seed, classes[c], cfg, idx, job_timeout)))
+                    futs.append((c, pools.submit(c, job_batch, prop, seed, classes[c], dict(cfg, class_offset=offs[c]), idx, job_timeout)))
         import numpy as np
 
         total = Counter()
@@ -445,6 +473,7 @@ def run_check(prop: str, tier: str, seed: int, runs: int | None = None, workers:
         for sh, vs in sorted(by_site.items()):
             v = vs[0]
             rcfg = dict(cfg, fault_mode=v["fault_mode"], run_index=v["run_index"])
+            rcfg.pop("class_offset", None)
             shrink_jobs.append((sh, v, rcfg, pools.submit(len(shrink_jobs), job_shrink, prop, v["cls"], rcfg, v["scen"], v["sched"], v["site"], getattr(mod, "SHRINK_EVALS", 300), 120)))
             if len(shrink_jobs) >= 24:
                 break
@@ -483,7 +512,7 @@ def run_check(prop: str, tier: str, seed: int, runs: int | None = None, workers:
         selftest = None
         n_pairs = selftest_pairs if selftest_pairs is not None else (64 if tier == "quick" else 256)
         if n_pairs:
-            selftest = determinism_selftest(prop, tier, seed, classes, cfg, n_pairs, pools)
+            selftest = determinism_selftest(prop, tier, seed, (classes, per_class, offs), cfg, n_pairs, pools)
             if selftest["mismatches"]:
                 raise HarnessError(f"determinism self-test failed: {selftest['mismatches'][:3]}")
 
@@ -574,31 +603,27 @@ def _job_components():
     return seams.components()
 
 
-def determinism_selftest(prop, tier, seed, classes, cfg, n_pairs, pools: Pools, other_pools: Pools | None = None):
+def determinism_selftest(prop, tier, seed, plan, cfg, n_pairs, pools: Pools, other_pools: Pools | None = None):
     """Same seeds executed twice: once on the pinned pool, once in a fresh
     interpreter with a different PYTHONHASHSEED.  Digests must agree."""
+    classes, per_class, offs = plan
     ncls = len(classes)
     # restrict to few classes to bound JIT in the second interpreter set
-    use_classes = list(range(min(ncls, 4)))
-    idx_by_class = {c: [] for c in use_classes}
-    i = 0
-    while sum(len(v) for v in idx_by_class.values()) < n_pairs:
-        c = i % ncls
-        if c in idx_by_class:
-            idx_by_class[c].append(i)
-        i += 1
+    use_classes = [c for c in range(ncls) if per_class[c]][:4]
+    share = -(-n_pairs // max(len(use_classes), 1))
+    idx_by_class = {c: per_class[c][:share] for c in use_classes}
     c2 = dict(cfg, collect_digests=True, samples_per_job=0)
     own = other_pools is None
     if own:
         other_pools = Pools(len(use_classes), hashseed="4242")
     try:
-        fa = {c: pools.submit(c, job_batch, prop, seed, classes[c], c2, idx, 900) for c, idx in idx_by_class.items()}
-        fb = {c: other_pools.submit(k, job_batch, prop, seed, classes[c], c2, idx, 900) for k, (c, idx) in enumerate(idx_by_class.items())}
+        fa = {c: pools.submit(c, job_batch, prop, seed, classes[c], dict(c2, class_offset=offs[c]), idx, 1500) for c, idx in idx_by_class.items()}
+        fb = {c: other_pools.submit(k, job_batch, prop, seed, classes[c], dict(c2, class_offset=offs[c]), idx, 1500) for k, (c, idx) in enumerate(idx_by_class.items())}
         mism = []
         n = 0
         for c in idx_by_class:
             try:
-                ra, rb = fa[c].result(timeout=1800), fb[c].result(timeout=1800)
+                ra, rb = fa[c].result(timeout=3000), fb[c].result(timeout=3000)
             except (BrokenProcessPool, FutTimeout) as ex:
                 raise HarnessError(f"selftest worker failed: {ex!r}")
             for r in (ra, rb):
@@ -647,21 +672,20 @@ def run_triage(prop, tier, seed, runs, workers, group_by=None):
     """Development aid: run a batch, keep every violation, print them grouped by
     scenario features (to find root causes behind many symptoms)."""
     mod = prop_module(prop)
-    classes = mod.classes(tier)
+    classes, per_class, offs = plan_runs(mod, tier, runs)
     ncls = len(classes)
     cfg = {"tier": tier, "n_classes": ncls, "fault_every": getattr(mod, "FAULT_EVERY", 5), "samples_per_job": 0, "seed": seed, "keep_per_site": 10**9}
     pools = Pools(workers)
     out = []
     try:
         futs = []
-        per_class = [[i for i in range(c, runs, ncls)] for c in range(ncls)]
         batch = getattr(mod, "BATCH", 400)
         max_len = max(len(x) for x in per_class)
         for start in range(0, max_len, batch):
             for c in range(ncls):
                 idx = per_class[c][start : start + batch]
                 if idx:
-                    futs.append(pools.submit(c, job_batch, prop, seed, classes[c], cfg, idx, 3000))
+                    futs.append(pools.submit(c, job_batch, prop, seed, classes[c], dict(cfg, class_offset=offs[c]), idx, 3000))
         for f in futs:
             r = f.result()
             if "error" in r:
